@@ -202,7 +202,20 @@ func (db *DB) Get(key []byte) (kv.Entry, error) {
 func (db *DB) ScanPrefix(prefix []byte, errOut *error) iter.Seq[kv.Entry] {
 	sstables := db.currentSSTables()
 	iters := []iter.Seq[kv.Entry]{db.mtables.ScanPrefix(prefix, errOut), sstables.ScanPrefix(prefix, errOut)}
-	return kv.MergeEntries(iters)
+	merged := kv.MergeEntries(iters)
+
+	// Memtable tombstones take part in the merge to shadow older entries and
+	// are dropped here.
+	return func(yield func(kv.Entry) bool) {
+		for entry := range merged {
+			if entry.IsDelete() {
+				continue
+			}
+			if !yield(entry) {
+				return
+			}
+		}
+	}
 }
 
 // Checkpoint initiates a DB checkpoint associated with the caller's provided
